@@ -261,8 +261,24 @@ def norm_ops(ops):
     return out
 
 
+def _hx(x):
+    """hex of a text; anything that is not encodable text (a faulty tree can emit it) is flagged, not raised"""
+    try:
+        return hs(x)
+    except Exception:   # noqa
+        return '!' + type(x).__name__
+
+
 def show_hl(hl):
-    return ','.join(f'{hs(n)}={hs(v)}' for n, v in hl) if hl else '~'
+    return ','.join(f'{_hx(n)}={_hx(v)}' for n, v in hl) if hl else '~'
+
+
+def safe_headerlist(resp):
+    """resp.headerlist, or the exception it raises (only a faulty tree raises here)"""
+    try:
+        return resp.headerlist, None
+    except Exception as e:   # noqa
+        return [], type(e).__name__
 
 
 def run_unit(ops, cls_name='Response'):
@@ -375,7 +391,8 @@ class C14(Check):
                 bump('op:' + op[0])
             if i % 2 == 0:
                 outs, resp = run_unit(ops, rng.choice(['Response', 'HTTPResponse']))
-                ans = f'out={",".join(outs)} st={core.opt(resp.status_code)} hl={show_hl(resp.headerlist)}'
+                hl, exc = safe_headerlist(resp)
+                ans = f'out={",".join(outs)} st={core.opt(resp.status_code)} hl={show_hl(hl) if exc is None else "!" + exc}'
                 out.append((f'hdr run {enc}', ans, dict(kind='run', ops=ops)))
                 bump('mode:unit')
                 final_status = resp.status_code
@@ -436,10 +453,13 @@ class C14(Check):
             return bad
         resp = response.Response()
         for op in ops:
-            before = [(n, v) for n, v in resp.headerlist]
+            before, _ = safe_headerlist(resp)
             o = apply_op(resp, op)
             bad += self._check_guard(op, o)
-            hl = resp.headerlist
+            hl, exc = safe_headerlist(resp)
+            if exc is not None:
+                bad.append((f'C14:headerlist-raises:{exc}', f'after {op!r} reading headerlist raises {exc}'))
+                return bad
             bad += self._check_emitted(hl, 'headerlist', resp.status_code)
             t = op[0]
             if t in ('set', 'app', 'sdf', 'prop') and o != 'ok' and op[2][0] != 'o' and hl != before:
@@ -492,7 +512,13 @@ class C14(Check):
         resp = response.HTTPResponse('', status)
         for v in vals:
             resp.headers.append(name, v)
-        got = [v.encode('latin1').decode('utf8') for n, v in resp.headerlist if n == name]
+        hl, exc = safe_headerlist(resp)
+        if exc is not None:
+            return [(f'C14:headerlist-raises:{exc}', f'{name}: appended {vals!r}, headerlist raises {exc}')]
+        try:
+            got = [v.encode('latin1').decode('utf8') for n, v in hl if n == name]
+        except Exception as e:   # noqa
+            return [('C14:multi-not-wire-safe', f'{name}: appended {vals!r}, emitted {hl!r}: {type(e).__name__}')]
         if got != [str(v) for v in vals]:
             return [('C14:multi-order', f'{name}: appended {vals!r}, emitted {got!r}')]
         return []
@@ -500,9 +526,6 @@ class C14(Check):
     def search(self, rng, n, seeds):
         findings, evals = [], 0
         cases = []
-        for s in seeds:
-            if 'ops' in s:
-                cases.append((s['ops'], s.get('kind', 'run') if s.get('kind') != 'run' else 'unit', s.get('body', 3)))
         # directed: every entry point x each of CR, LF, NUL at first/middle/last position
         for ctl in ('\r', '\n', '\0'):
             for txt in (ctl + 'ab', 'a' + ctl + 'b', 'ab' + ctl):
@@ -521,6 +544,9 @@ class C14(Check):
                         cases.append(([op, ['st', code]], 'unit', 3))
                     cases.append(([['st', code], ['set', spell, v]], 'wsgi', 3))
                     cases.append(([['err', code, [[spell, v]]]], 'wsgi', 3))
+        for s in seeds:
+            if 'ops' in s:
+                cases.append((s['ops'], s.get('kind', 'run') if s.get('kind') != 'run' else 'unit', s.get('body', 3)))
         for _ in range(n // 2):
             cases.append((norm_ops(gen_ops(rng)), rng.choice(['unit', 'wsgi']), rng.choice([0, 3])))
         for ops, mode, bl in cases:
@@ -555,5 +581,5 @@ class C14(Check):
             res['observed'] = dict(outcomes=seen.get('outs'), status=seen.get('status'), headers=seen.get('headers'))
         else:
             outs, resp = run_unit(ops)
-            res['observed'] = dict(outcomes=outs, status=resp.status_code, headerlist=resp.headerlist)
+            res['observed'] = dict(outcomes=outs, status=resp.status_code, headerlist=safe_headerlist(resp))
         return res
